@@ -107,7 +107,7 @@ def sea_case(draw, max_points=8, nds=(16, 24, 36), kinds=None, steep=None, max_n
     n = draw(st.integers(1, max_points))
     nf = draw(st.integers(min_nf, max_nf))
     nd = draw(st.sampled_from(list(nds)))
-    if min_nf <= nd <= max_nf and draw(st.integers(0, 4)) == 0:
+    if min_nf <= nd <= max_nf + 8 and draw(st.integers(0, 3)) == 0:
         nf = nd          # square spectra (as many frequencies as directions): axes cannot be told apart by their length
     fk = draw(st.sampled_from(["geometric", "uniform"]))
     f0 = draw(fl(0.03, 0.06))
